@@ -16,7 +16,7 @@ fn gen_seq(r: &mut Rng, init: &Init) -> Vec<Stmt> {
         let pickk = |r: &mut Rng, keys: &Vec<i64>| if !keys.is_empty() && r.chance(4, 5) { *r.pick(keys) } else { r.range(1, 9) };
         let s = match if i == 0 { r.below(3) } else { r.below(11) } {
             0 | 1 => {
-                let rows = gen_rows(r, &[], false);
+                let rows = gen_rows(r, &[], false, false);
                 keys.extend(rows.iter().map(|x| x.0));
                 Stmt::Create(rows)
             }
@@ -27,7 +27,7 @@ fn gen_seq(r: &mut Rng, init: &Init) -> Vec<Stmt> {
             }
             3 | 4 | 5 => {
                 let bad = r.chance(1, 8);
-                Stmt::Set(r.below(2) as u8, gen_rows(r, &keys, bad))
+                Stmt::Set(r.below(2) as u8, gen_rows(r, &keys, bad, false))
             }
             6 => Stmt::Delete(false, pickk(r, &keys)),
             7 => Stmt::Delete(true, pickk(r, &keys)),
@@ -40,14 +40,30 @@ fn gen_seq(r: &mut Rng, init: &Init) -> Vec<Stmt> {
 }
 
 /// K-C24-snapshot on the input: a statement reads (MATCH/MERGE filter) a key that an earlier
-/// statement of the same transaction wrote (created, updated, deleted or connected)
-fn reads_earlier_write(stmts: &[Stmt]) -> bool {
-    for j in 0..stmts.len() {
-        let rd = stmts[j].reads();
-        for s in &stmts[..j] {
-            if s.writes().iter().any(|k| rd.contains(k)) {
-                return true;
+/// statement of the same transaction wrote (created, updated, deleted or connected).  DETACH DELETE
+/// also writes the neighbours of the deleted node (it removes their relationships): neighbours in
+/// the initial database or through relationships created earlier in the transaction.
+fn reads_earlier_write(init: &Init, stmts: &[Stmt]) -> bool {
+    let mut written: Vec<i64> = vec![];
+    let mut links: Vec<(i64, i64)> = init.edges.iter().map(|(a, b)| (init.nodes[*a].0, init.nodes[*b].0)).collect();
+    for s in stmts {
+        if s.reads().iter().any(|k| written.contains(k)) {
+            return true;
+        }
+        written.extend(s.writes());
+        match s {
+            Stmt::Link(a, b) => links.push((*a, *b)),
+            Stmt::Delete(true, k) => {
+                for (a, b) in &links {
+                    if a == k {
+                        written.push(*b);
+                    }
+                    if b == k {
+                        written.push(*a);
+                    }
+                }
             }
+            _ => {}
         }
     }
     false
@@ -98,7 +114,7 @@ fn main() {
         cw.push(coq_case(&init, true, &stmts, &st, &d));
         cw.push(coq_case(&init, false, &stmts, &st2, &d2));
         cases += 2;
-        let known = reads_earlier_write(&stmts);
+        let known = reads_earlier_write(&init, &stmts);
         *hist.entry(format!("reads-earlier-write:{}", known)).or_insert(0) += 1;
         for (j, s) in stmts.iter().enumerate() {
             *hist.entry(format!("stmt:{}:{}", s.kind(), if st[j] { "ok" } else { "err" })).or_insert(0) += 1;
